@@ -119,4 +119,7 @@ func (szr *Sizer) GetAt(values map[string]string, idx uint16) (map[string]string
 // Reset flushes all size measurements, making the sizer available for reuse.
 func (szr *Sizer) Reset() {
 	szr.crsrs = []uint32{}
+	szr.sink = ""
+	szr.memberSizes = make(map[string]uint16)
+	szr.totalMemberSize = 0
 }
